@@ -2170,7 +2170,18 @@ def run_transl(ctx):
     ctx.correspond("transl", pairs)
 
 
+# ------------------------------------------------------------------------------------------------
+# history / object-identity probes (harness/histories.py); the adapters of the four FEC properties live in harness/hist_fec.py
+def ENTRY_POINTS():
+    import hist_fec
+
+    return hist_fec.entry_points("c10")
+
+
 def run(ctx):
+    import histories
+
+    histories.run(ctx, ENTRY_POINTS)  # generic history / object-identity probes (adapters: harness/hist_fec.py)
     fresh_module()  # a second pass (boosted search) starts from the module state of a new process as well
     t = T()
     ref = Ref()
@@ -2538,6 +2549,10 @@ def model_says(lines):
 
 
 def replay(obj):
+    if str((obj.get("failure") or {}).get("kind", "")).startswith("history:"):
+        import histories
+
+        return histories.replay((obj.get("failure") or {}).get("input") or {}, ENTRY_POINTS)
     f = obj.get("failure") or {}
     inp = f.get("input") or {}
     print(json.dumps(obj.get("type")), f.get("kind"), "-", f.get("what"))
